@@ -40,6 +40,7 @@ from .scheduler import OptimizationStrategy
 from .tensor import MemArea
 from .tensor import MemType
 from .tensor import Tensor
+from .tensor import TensorAddressMap
 from .utils import progress_print
 from .weight_compressor import CompressedWeightCache
 
@@ -158,6 +159,8 @@ def _check_schedule(nng, arch, scheduler_options):
 
 def compiler_driver(nng, arch, options, scheduler_options, network_type, output_basename, subgraph_output = False):
     assert verify_graph_health(nng)
+    # Addresses belong to the graph being compiled: value-derived tensor ids repeat between compilations
+    TensorAddressMap.clear_address_map()
     verbose_progress = scheduler_options.verbose_progress
 
     # Encoded weights depend on the architecture and belong to the graph being compiled
